@@ -2277,6 +2277,32 @@ static void EnterSymbol_Search(
     }
 }
 
+/* A symbol that is new in its section hides the same name in the enclosing
+   sections.  If one of those was already referenced in this pass, the
+   reference may have come from inside this section and picked the wrong
+   symbol: the correct one is only found in another pass. */
+
+static void CheckHiddenUse(PTree TreeRoot, PSymbolEntry Neu) {
+    if ((Neu->Tree.Attribute != -1) && !Repass
+        && !SearchTree(TreeRoot, Neu->Tree.Name, Neu->Tree.Attribute)) {
+        LongInt Outer = Neu->Tree.Attribute;
+
+        while ((Outer != -1) && !Repass) {
+            PCToken      pSect = FirstSection;
+            PSymbolEntry pHidden;
+
+            for (; pSect && (Outer > 0); Outer--) {
+                pSect = pSect->Next;
+            }
+            Outer   = pSect ? pSect->Parent : -1;
+            pHidden = (PSymbolEntry)SearchTree(TreeRoot, Neu->Tree.Name, Outer);
+            if (pHidden && pHidden->Used) {
+                Repass = True;
+            }
+        }
+    }
+}
+
 static Boolean EnterSymbol(PSymbolEntry Neu, Boolean MayChange, LongInt ResHandle) {
     PForwardSymbol  Lauf, Prev;
     PForwardSymbol* RRoot;
@@ -2333,6 +2359,7 @@ static Boolean EnterSymbol(PSymbolEntry Neu, Boolean MayChange, LongInt ResHandl
                        Copy->SymWert.Contents.str.len
                        = Copy->SymWert.Contents.str.capacity = l);
             }
+            CheckHiddenUse(TreeRoot, Copy);
             EnterTree(&TreeRoot, &(Copy->Tree), SymbolAdder, &EnterStruct);
         }
         if (Lauf) {
@@ -2347,29 +2374,7 @@ static Boolean EnterSymbol(PSymbolEntry Neu, Boolean MayChange, LongInt ResHandl
         }
     }
 
-    /* A symbol that is new in its section hides the same name in the enclosing
-       sections.  If one of those was already referenced in this pass, the
-       reference may have come from inside this section and picked the wrong
-       symbol: the correct one is only found in another pass. */
-
-    if ((Neu->Tree.Attribute != -1) && !Repass
-        && !SearchTree(TreeRoot, Neu->Tree.Name, Neu->Tree.Attribute)) {
-        LongInt Outer = Neu->Tree.Attribute;
-
-        while ((Outer != -1) && !Repass) {
-            PCToken      pSect = FirstSection;
-            PSymbolEntry pHidden;
-
-            for (; pSect && (Outer > 0); Outer--) {
-                pSect = pSect->Next;
-            }
-            Outer   = pSect ? pSect->Parent : -1;
-            pHidden = (PSymbolEntry)SearchTree(TreeRoot, Neu->Tree.Name, Outer);
-            if (pHidden && pHidden->Used) {
-                Repass = True;
-            }
-        }
-    }
+    CheckHiddenUse(TreeRoot, Neu);
     EnterStruct.Rejected = False;
     EnterTree(&TreeRoot, &(Neu->Tree), SymbolAdder, &EnterStruct);
     FirstSymbol = (PSymbolEntry)TreeRoot;
